@@ -406,6 +406,30 @@ def run(ck, facts, tier):
         else:
             ck.bad("R9.6", "R9.6@%s#not-a-forwarder" % what, "%s is expected to be exactly `self.as_base().resolve(rel)`; found %d branch(es), "
                    "%d resolve call(s)" % (what, len(real), len(fwd)), fn.loc)
+    # R9.8 resolve_into returns the *whole* buffer as the result, and the resolver appends to it (it only clears it on some
+    # paths): the buffer must be cleared first
+    def cleared_before(fn, callee_re, param):
+        """(found the callee, String::clear on `param` dominates it)"""
+        tgt = [(bi, t) for bi, t in fn.calls() if call_name_matches(t, callee_re)]
+        clr = [bi for bi, t in fn.calls() if call_name_matches(t, r"^std::string::String::clear$")
+               and fn.origin(t["args"][0])[0] == "param" and fn.origin(t["args"][0])[1] == param]
+        return bool(tgt), bool(tgt) and all(any(fn.dominates(c, bi) and c != bi for c in clr) for bi, _ in tgt)
+    import core
+    ck.control("R9.8", "pos_result_is_whole_buffer", cleared_before(core.fixture_fn("pos_result_is_whole_buffer"), r"^append_into$", 2) == (True, False))
+    ck.control("R9.8", "neg_buffer_cleared_first", cleared_before(core.fixture_fn("neg_buffer_cleared_first"), r"^append_into$", 2) != (True, True), expect=False)
+    n98 = 0
+    for fn in facts.find_fns(crate="sophia_iri", name_re=r"^resolve::BaseIri(Ref)?::<T>::resolve_into$"):
+        n98 += 1
+        found, ok = cleared_before(fn, r"^oxiri::Iri(Ref)?::<T>::resolve_into$", 3)
+        if not found:
+            ck.bad("R9.8", "R9.8@%s#anchor" % fn.name, "anchor-missing: the call of the resolver's resolve_into", fn.loc)
+        elif ok:
+            ck.ok("R9.8", "%s clears the buffer before resolving into it" % fn.name)
+        else:
+            ck.bad("R9.8", "R9.8@%s#stale-buffer" % fn.name, "%s returns the whole buffer as the resolved IRI but does not clear it first: "
+                   "the resolver appends (it only clears the buffer when the reference has a scheme), so a reused buffer yields "
+                   "`http://a/dhttp://a/e`, and stale content is prefixed to the result" % fn.name, fn.loc)
+    ck.floor("R9.8", "resolve_into wrappers", n98, 2)
     # R9.7 panic audit of the resolution glue (resolve.rs, _wrapper.rs): "every accepted value can be used as a base or be
     # resolved without panicking"
     import panics
@@ -429,9 +453,16 @@ def run(ck, facts, tier):
     panics.controls(ck, "R9.7")
     panics.classify(facts, sites, IRI_TABLE)
     for st in sites:
-        if st.kind == "validator-call":
-            # new_unchecked on the resolver's output / on re-wrapped values: an RFC 3987 IRI by A9 and L9 (validator = RFC)
-            ck.ok("R9.7", st.key, "value produced by the resolver or already validated: accepted by the validator since L9 holds (A9)", nontrivial=False)
+        if st.kind == "validator-call" and re.search(r"Resolvable<T>>::output_rel(::\{closure\})?#validator-call:IriRef:", st.key):
+            # A9 (the resolver's output is an RFC 3987 IRI reference) is REFUTED for relative bases
+            ck.bad("R9.7", "R9.7@" + st.key + "#resolver-guarantee", "the result of resolving against a *relative* base is wrapped with "
+                   "IriRef::new_unchecked, but the resolver's output is not always an IRI reference there: `x` + `./1:b` gives `1:b` "
+                   "(rejected by IriRef::new), `` + `./:` gives `:`, and `x` + `./a:b` gives the absolute IRI `a:b` (RFC 3986 4.2 "
+                   "expects `./1:b`, `./a:b`): debug builds panic in new_unchecked, also through the Result-returning &str flavour; "
+                   "release builds hand out an IriRef that breaks its invariant", st.loc)
+        elif st.kind == "validator-call":
+            # new_unchecked on the resolver's output for an absolute base / on re-wrapped values: an RFC 3987 IRI by A9 and L9
+            ck.ok("R9.7", st.key, "value produced by the resolver (absolute base) or already validated: accepted by the validator since L9 holds (A9)", nontrivial=False)
         elif st.status in ("auto", "audited"):
             ck.ok("R9.7", st.key, st.reason)
         elif re.search(r"Resolvable<T>>::output_(abs|rel)#unwrap:unwrap:param1$", st.key):
